@@ -373,6 +373,47 @@ pub fn run(data: &[u8], ctx: &mut Ctx) -> Outcome {
             let _ = round;
         }
     }
+    // --- drawn last: (a) a share envelope whose share OBJECT a holder has obscured or replaced: the join
+    // must answer with an error or the original, never panic; (b) a key holder's forgery: an encrypted
+    // subject that declares the original's digest but holds other content, split under the same policy:
+    // a quorum must not hand out that content ("never returns a different envelope")
+    if src.chance(70) && n <= 12 {
+        let all: Vec<&Envelope> = flat.iter().map(|x| &x.1).collect();
+        let vi = src.below(n);
+        let victim = &flat[vi].1;
+        if let Some(a) = victim.assertions_with_predicate(bc_envelope::known_values::SSKR_SHARE).first().cloned() {
+            let obj = a.as_object().unwrap();
+            let damaged = match src.below(3) {
+                0 => victim.elide_removing_target(&obj),
+                1 => victim.elide_removing_target_with_action(&obj, &ObscureAction::Compress),
+                _ => victim.replace_assertion(a.clone(), Envelope::new_assertion(bc_envelope::known_values::SSKR_SHARE, "not a share")).unwrap_or(victim.clone()),
+            };
+            ctx.class("damaged-share-object");
+            for list in [vec![&damaged], { let mut v = all.clone(); v[vi] = &damaged; v }, { let mut v = vec![&damaged]; v.extend(all.iter().enumerate().filter(|(i, _)| *i != vi).map(|(_, x)| *x)); v }] {
+                let r = nopanic!(ctx, Envelope::sskr_join(&list), "damaged", "C11/damaged-share");
+                if let Ok(j) = r {
+                    check!(ctx, j.to_cbor_data() == expected_subject_bytes, "damaged", "C11/damaged-share/different-envelope", "join with a damaged share envelope returned something other than the original subject");
+                }
+            }
+        }
+        // (b)
+        let other_content = Envelope::new(format!("not what the shares committed to {}", src.below(1000)));
+        let claimed = to_encrypt.subject().digest().into_owned();
+        if other_content.digest().into_owned() != claimed {
+            let msg = ck.encrypt_with_digest(other_content.tagged_cbor().to_cbor_data(), claimed.clone(), None::<bc_components::Nonce>);
+            if let Ok(forged) = Envelope::try_from(msg) {
+                let mut rng3 = SeededRandomNumberGenerator::new([src.u64() | 1, 5, 6, 7]);
+                if let Ok(fshares) = forged.sskr_split_using(&sskr_spec, &ck, &mut rng3) {
+                    let fl: Vec<&Envelope> = fshares.iter().flatten().collect();
+                    ctx.class("forged-content-under-the-declared-digest");
+                    let r = nopanic!(ctx, Envelope::sskr_join(&fl), "forged", "C11/forged");
+                    if let Ok(j) = r {
+                        check!(ctx, j.digest().into_owned() == claimed, "forged", "C11/forged/different-envelope", "joining all shares of an encrypted subject whose content does not hash to its declared digest returned that content ({}), which no share envelope committed to", j.format_flat());
+                    }
+                }
+            }
+        }
+    }
     let _ = e.digest();
     ctx.nontrivial = at_boundary > 0 && below_boundary > 0;
     Outcome::Pass
